@@ -103,7 +103,12 @@ def gen_doc(rng, big=False):
             doc[jsonvals.rand_string(rng, 5) or "x"] = jsonvals.rand_value(rng, 0, 2, 3)
     items = list(doc.items())
     rng.shuffle(items)
-    return {"kind": "doc", "doc": dict(items), "seed": seed_hex, "pre": pre, "extra": extra}
+    if pre == "stale" and rng.random() < 0.5:
+        # a channel that shrank since it was last signed: far more stale signature bytes than new ones
+        for j in range(rng.choice([50, 200])):
+            doc["signatures"]["gone-%d-1.0-0.tar.bz2" % j] = {"ab" * 32: {"signature": "cd" * 64}}
+    return {"kind": "doc", "doc": dict(items), "seed": seed_hex, "pre": pre, "extra": extra,
+            "layout": rng.choice(["compact", "compact", "canonical", "wide", "wide"])}
 
 
 def expected_doc(doc, key):
@@ -121,10 +126,18 @@ def check_case(case, rec, lib, scratch):
     doc = case["doc"]
     key = gkeys.from_seed_hex(case["seed"])
     npk, nco = len(doc["packages"]), len(doc.get("packages.conda", {}))
-    rec.case("%d|%d|%s|%s|%s" % (npk, nco, case["pre"], case["extra"], case["seed"][:8]), nontrivial=npk + nco > 0)
+    rec.case("%d|%d|%s|%s|%s|%s" % (npk, nco, case["pre"], case["extra"], case["seed"][:8], case.get("layout")), nontrivial=npk + nco > 0)
+    rec.hist("input_layout", case.get("layout", "compact"))
     fn = os.path.join(scratch, "repodata.json")
+    layout = case.get("layout", "compact")
     with open(fn, "wb") as f:
-        f.write(json.dumps(doc).encode("utf-8") if not case.get("canonical_input") else canonjson.canon(doc))
+        if layout == "canonical":
+            f.write(canonjson.canon(doc))
+        elif layout == "wide":
+            # hand-edited / other tool: valid JSON, wider than canonical, so the signed output can be SHORTER than the input
+            f.write(json.dumps(doc, indent=8).encode("utf-8") + b"\n\n")
+        else:
+            f.write(json.dumps(doc).encode("utf-8"))
     # what a JSON parser makes of the file is the "original document"
     with open(fn, "rb") as f:
         original = json.load(f)
